@@ -59,6 +59,8 @@ type C10Case struct {
 	// (0 = before any traffic), at the latest UnblockDelayMs after the traffic started
 	UnblockAfter   [2]int `json:"unblock_after,omitempty"`
 	UnblockDelayMs [2]int `json:"unblock_delay_ms,omitempty"`
+	// Mixed: rounds of concurrent Open/Close of different ids on one end, run after the barrier rounds
+	Mixed *C10Mixed `json:"mixed,omitempty"`
 	// Ghosts: writes to connection ids that are not open at the receiving end (dropped by design)
 	Ghosts []C10Ghost `json:"ghosts,omitempty"`
 }
@@ -135,6 +137,7 @@ func genC10(t *rapid.T) C10Case {
 	}
 	c.Delays = genDelays(t, 6)
 	c.Rounds = genRounds(t, c.minQLen())
+	c.Mixed = genMixed(t)
 	if rapid.IntRange(0, 1).Draw(t, "ghosts") == 0 {
 		c.Ghosts = rapid.SliceOfN(rapid.Custom(func(t *rapid.T) C10Ghost {
 			g := C10Ghost{Dir: rapid.IntRange(0, 1).Draw(t, "gdir"), Closed: rapid.IntRange(0, 2).Draw(t, "gclosed") == 0}
@@ -449,6 +452,17 @@ wait:
 		ev.Get("C10").AddExtra("open_rounds", len(c.Rounds))
 		ev.Get("C10").AddExtra("open_rounds_all_handles_identical", same)
 		if bad != "" {
+			o := ev.Outcome{Classes: c10Classes(c), NonTrivial: c10NonTrivial(c), Fail: bad}
+			if stall {
+				o.History = map[string]any{"stacks": stacks()}
+			}
+			return o, stall
+		}
+	}
+
+	if c.Mixed != nil && r.fail == "" {
+		ev.Get("C10").AddExtra("mixed_open_close_rounds", len(c.Mixed.Rounds))
+		if bad, stall := runMixedRounds(c, r.p, alloc); bad != "" {
 			o := ev.Outcome{Classes: c10Classes(c), NonTrivial: c10NonTrivial(c), Fail: bad}
 			if stall {
 				o.History = map[string]any{"stacks": stacks()}
@@ -802,6 +816,9 @@ func c10Classes(c C10Case) []string {
 				break
 			}
 		}
+	}
+	if c.Mixed != nil && len(c.Mixed.Rounds) > 0 {
+		cls = append(cls, "concurrent_open_and_close_rounds")
 	}
 	if len(c.Reopen) > 0 {
 		cls = append(cls, "reopened_id")
